@@ -290,6 +290,58 @@ fn explore_t(ctx: &vh::explore::Ctx, sc: &TScenario, bound: usize, cap: u64) -> 
     stats
 }
 
+/// Mock-induced panics of zero-argument methods, raised through original / clone, caught or on
+/// another thread: verification of the original must fail with their text.
+fn zero_arg_cells(ctx: &vh::explore::Ctx, stats: &mut Stats) {
+    use unimock::*;
+    let kinds: [(&str, &str); 4] = [
+        ("no-impl", "Z::ping(): No mock implementation found."),
+        ("explicit", "Z::ping(): Explicit panic from"),
+        ("wrong-order", "Z::ping(): Method matched in wrong order."),
+        ("more-than-once", "Z::ping(): Cannot return value more than once"),
+    ];
+    for (kind, needle) in kinds {
+        for via_clone in [false, true] {
+            for on_thread in [false, true] {
+                let cell = format!("zero-arg/{kind}/{}/{}", if via_clone { "clone" } else { "original" }, if on_thread { "thread" } else { "caught" });
+                let original = match kind {
+                    "no-impl" => Unimock::new(()),
+                    "explicit" => Unimock::new(ZMock::ping.each_call(matching!()).panics("zero")),
+                    "wrong-order" => Unimock::new((
+                        ZMock::pong.next_call(matching!()).returns(1u32),
+                        ZMock::ping.next_call(matching!()).returns(2u32),
+                    )),
+                    _ => Unimock::new(ZMock::ping.some_call(matching!()).returns(3u32)),
+                };
+                let inst = if via_clone { original.clone() } else { original.clone() };
+                let target: &Unimock = if via_clone { &inst } else { &original };
+                if kind == "more-than-once" {
+                    let _ = catch(|| <Unimock as Z>::ping(target));
+                }
+                let r = if on_thread {
+                    std::thread::scope(|s| s.spawn(|| <Unimock as Z>::ping(target)).join()).map_err(payload_to_string)
+                } else {
+                    catch(|| <Unimock as Z>::ping(target))
+                };
+                drop(inst);
+                stats.add("transitions", 1);
+                stats.add("traces_validated_against_impl", 1);
+                stats.add("zero_arg_cells", 1);
+                let verdict = verify_by(original, VerifyHow::Drop);
+                let ok_call = matches!(&r, Err(msg) if msg.contains(needle));
+                let ok_verdict = matches!(&verdict, Verdict::Failed(lines) if lines.join("\n").contains(needle));
+                if !ok_call || !ok_verdict {
+                    ctx.violation(
+                        &cell,
+                        &format!("{cell}: the call gave {r:?}; verification of the original gave {verdict:?}; both must carry {needle:?}"),
+                        vh::json::J::obj().set("zero_arg_cell", cell.as_str()),
+                    );
+                }
+            }
+        }
+    }
+}
+
 fn main() {
     silence_panics();
     set_user_panic_arg(Some(2));
@@ -397,6 +449,8 @@ fn main() {
             stats.merge(p);
         }
     }
+    // methods without arguments: every error kind that renders the call must be recorded as well
+    zero_arg_cells(ctx, &mut stats);
     let mut cov = coverage(
         ctx,
         &stats,
